@@ -144,7 +144,17 @@ var c10CueDef = regexp.MustCompile(`(?m)^#([A-Za-z0-9_]+):`)
 // ok = false when the term cannot be split (a library definition refers back to the root).
 func c10SplitCue(d *Defs, text, pkg, lib string) (mainText, libText string, ok bool) {
 	for _, it := range d.Items {
-		if it.Name != d.Root && d.reachableFrom(it.Name)[d.Root] {
+		if it.Name == d.Root {
+			continue
+		}
+		if d.reachableFrom(it.Name)[d.Root] {
+			return "", "", false
+		}
+		// only struct and enum definitions are moved: a default on a reference to an imported
+		// numeric alias makes the CUE loader fail in this mode ("could not infer number type")
+		switch it.Ty.Kind {
+		case SStruct, SEnumS, SEnumI:
+		default:
 			return "", "", false
 		}
 	}
